@@ -57,7 +57,10 @@ RULE = ("cases = configuration x activity schedules. configuration: {WSGI Server
         "request, HTTP/1.0 request to an application that never answers, non-persistent request for a response of 2*tcp_wmem_max+2 MiB "
         "whose reader stalls (small pinned receive buffer, never reads: every later send would-blocks), non-persistent request whose response the application streams for k*T (k in 2..8, a send every p "
         "tocks, p*tock < T) while the client only reads, with and without a WireLog on the servant, persistent HTTP/1.1 request (exempt after its "
-        "head), client closes}. Non-trivial = some connection reached an idle deadline or was observed active across "
+        "head), client closes}. A quarter of the cases (plus a fixed grid) REWIND the server in mid-run: server.wind() onto a second Tymist "
+        "whose tyme is 1000 or 7 tocks earlier, equal, or 7 or 1000 tocks later, with connections open; from then on "
+        "the clauses use the new time base with the rewind moment as start of every open connection's idle window. "
+        "Non-trivial = some connection reached an idle deadline or was observed active across "
         ">= 2 windows; distinct = configuration, T/tock and the per-connection (schedule, outcome) list.")
 ASSUMPTIONS = [
     "non-persistent is judged only for connections whose bytes are unambiguous: nothing, an unfinished request head, "
@@ -80,6 +83,10 @@ REQUIRE = {
     "service_calls": 10000,
     "configs": 3,
     "stalled_reader_deadlines_judged": 60,
+    "rewinds_done": 150,
+    "connections_open_at_rewind": 150,
+    "rewound_connections_deadline_judged": 60,
+    "rewound_active_window_evaluations": 200,
     "streamed_responses_completed": 100,
     "streams_with_a_send_in_every_window": 100,
     "stream_tx_events": 2000,
@@ -139,14 +146,15 @@ def _client_ctx():
     return _proc["cctx"]
 
 
-def make_app(tymist, tock):
-    """WSGI application of one case; /stream paces itself on the case's virtual clock"""
+def make_app(run):
+    """WSGI application of one case; /stream paces itself on the harness's step counter (one step = one tock of
+    whichever tymist the server is currently wound to)"""
     def app(environ, start_response):
-        return _app(environ, start_response, tymist, tock)
+        return _app(environ, start_response, run)
     return app
 
 
-def _app(environ, start_response, tymist, tock):
+def _app(environ, start_response, run):
     if environ.get("PATH_INFO") == "/stream":
         # n parts, one every p tocks of virtual tyme; nothing (empty yield) in the rounds between
         q = dict(kv.split("=") for kv in environ.get("QUERY_STRING", "").split("&") if "=" in kv)
@@ -156,8 +164,8 @@ def _app(environ, start_response, tymist, tock):
         def stream():
             sent, last = 0, None
             while sent < n:
-                if last is None or tymist.tyme - last >= p * tock:
-                    last = tymist.tyme
+                if last is None or run.step - last >= p:
+                    last = run.step
                     sent += 1
                     yield b"part-%05d\n" % sent
                 else:
@@ -255,7 +263,10 @@ KINDS = ["never", "never", "once", "burst", "periodic_lt", "periodic_lt", "perio
          "complete10", "close11", "app_stall", "persistent", "client_close", "big_stall", "stream_read"]
 
 
-def _gen(rng, cfg=None, m=None, kinds=None, wl=None, k=None):
+REWINDS = [-1000, -7, 0, 7, 1000]      # new tymist's tyme - old tymist's tyme, in tocks
+
+
+def _gen(rng, cfg=None, m=None, kinds=None, wl=None, k=None, rewind=None):
     cfg = cfg or rng.choice(["wsgi", "wsgi", "wsgi-tls", "bare"])
     tock = rng.choice(TOCKS)
     m = m if m is not None else rng.choice(TMULT)
@@ -276,7 +287,12 @@ def _gen(rng, cfg=None, m=None, kinds=None, wl=None, k=None):
         nsend = max(nsend, sum(1 for e in ev if e[1] == "send"))
     # run long enough for the loosest deadline of the busiest connection: (n+1)*T after its accept, plus slack
     steps = min(420, last + int(math.ceil((nsend + 3) * m)) + 4)
-    return {"cfg": cfg, "wind": rng.choice(["ctor", "wind"]), "tock": tock, "m": m, "conns": conns, "steps": steps,
+    if rewind is None and kinds is None and rng.random() < 0.25:
+        # rewind the server onto another tymist while connections are open: [step, tyme shift in tocks]
+        rewind = [rng.randint(1, max(1, rng.choice([int(math.ceil(m)) - 1, last + 1]))), rng.choice(REWINDS)]
+    if rewind:
+        steps = min(420, steps + rewind[0])
+    return {"rewind": rewind, "cfg": cfg, "wind": rng.choice(["ctor", "wind"]), "tock": tock, "m": m, "conns": conns, "steps": steps,
             "wl": (rng.random() < 0.4) if wl is None else wl}
 
 
@@ -310,6 +326,16 @@ def cases(tier, seed, shard, nshards):
                         yield _gen(grid, cfg, m, ["stream_read"], wl, k)
                     else:
                         _gen(grid, cfg, m, ["stream_read"], wl, k)
+                    i += 1
+    # fixed grid 4: server rewound onto an earlier / equal / later tymist while connections are open
+    for cfg in ("wsgi", "wsgi-tls", "bare"):
+        for shift in REWINDS:
+            for m in (2, 4):
+                for kinds in (["never"], ["once", "periodic_lt"], ["periodic_lt", "big_stall", "never"]):
+                    if i % nshards == shard:
+                        yield _gen(grid, cfg, m, kinds, rewind=[1, shift])
+                    else:
+                        _gen(grid, cfg, m, kinds, rewind=[1, shift])
                     i += 1
     rng = random.Random(f"{seed}:C12:{shard}")
     n = (2000 if tier == "quick" else 40000) // nshards
@@ -354,6 +380,8 @@ class Conn:
         self.eof = False
         self.eof_polls = 0
         self.received = b""          # what a reading client got (stream_read)
+        self.ev0 = 0                 # traffic events before the last rewind are on another time base: not used
+        self.rewound = False
         self.active_windows = 0
         self.deadline_seen = False
         self.tymeout_first = None    # remoter.tymeout as constructed (recorded by the Remoter.__init__ wrapper)
@@ -375,6 +403,7 @@ class Run:
         self.remoters = []
         self.server = None
         self.wl = None
+        self.step = 0
         self.trace = []
 
     # -- construction --------------------------------------------------------
@@ -396,7 +425,7 @@ class Run:
             if self.cfg == "bare":
                 srv = httpserving.BareServer(timeout=self.T, **kw)
             else:
-                srv = httpserving.Server(app=make_app(self.tymist, self.tock), tymeout=self.T, **kw)
+                srv = httpserving.Server(app=make_app(self), tymeout=self.T, **kw)
             if case["wind"] == "wind":
                 if hasattr(srv, "wind"):
                     srv.wind(self.tymist.tymen())
@@ -475,7 +504,8 @@ class Run:
             if not open_before:
                 continue
             e = c.entry
-            tymes = [c.a0] + [t for (t, d, k) in e.events[:n_before]]
+            tymes = [c.a0] + [t for (t, d, k) in e.events[c.ev0:n_before]]
+            n_before -= c.ev0
             last = tymes[-1]
             gaps_ok = all(b - a < T for a, b in zip(tymes, tymes[1:])) and now - last < T
             closed_now = not e.open
@@ -493,6 +523,8 @@ class Run:
             if not c.persistent:
                 if gaps_ok:
                     ctx.count("active_window_evaluations")
+                    if c.rewound:
+                        ctx.count("rewound_active_window_evaluations")
                     c.active_windows += 1
                     if idle_close:
                         ctx.violation(f"closed-as-idle-before-tymeout-elapsed:{type(r).__name__}",
@@ -511,6 +543,8 @@ class Run:
                 elif now >= D and not c.deadline_seen:
                     c.deadline_seen = True
                     ctx.count("idle_deadlines_reached")
+                    if c.rewound:
+                        ctx.count("rewound_connections_deadline_judged")
                     if closed_now:
                         ctx.count("idle_deadline_closed_in_time")
                     else:
@@ -581,6 +615,31 @@ class Run:
                 select.select([], [], [], 0.0005)
         raise HarnessError("TLS handshake with the server did not complete in 80 service rounds")
 
+    def rewind(self, shift):
+        """wind the server onto a second Tymist whose tyme differs by `shift` tocks, while connections are open.
+        From here on every clause is measured on the new time base, with the rewind moment as the start of each
+        open connection's idle window (Tymer.wind restarts the tymer at the new tyme)."""
+        ctx = self.ctx
+        old = self.tymist
+        new = tyming.Tymist(tyme=old.tyme + shift * self.tock, tock=self.tock)
+        if hasattr(self.server, "wind"):
+            self.server.wind(new.tymen())
+        else:
+            self.server.servant.wind(new.tymen())
+        self.tymist = new
+        self.led.clock = new.tymen()
+        ctx.count("rewinds_done")
+        ctx.count("rewinds." + ("earlier" if shift < 0 else "later" if shift > 0 else "equal"))
+        self.trace.append(f"rewind: tyme {old.tyme} -> {new.tyme}")
+        for c in self.conns:
+            if c.entry is not None and c.entry.open and c.a0 is not None:
+                c.a0 = new.tyme
+                c.ev0 = len(c.entry.events)
+                c.rewound = True
+                c.deadline_seen = False
+                ctx.count("connections_open_at_rewind")
+                ctx.seen("rewound_schedules", [self.cfg, c.kind, shift])
+
     def read_all(self, c):
         """the client of a streamed response only reads"""
         for _ in range(64):
@@ -615,6 +674,9 @@ class Run:
         ctx.seen("configs", self.cfg)
         ctx.seen("config_x_T", [self.cfg, case["m"]])
         for step in range(case["steps"]):
+            self.step = step
+            if case.get("rewind") and case["rewind"][0] == step:
+                self.rewind(case["rewind"][1])
             for c in self.conns:
                 rel = step - c.spec["start"]
                 if rel == 0:
@@ -640,6 +702,7 @@ class Run:
         extra = 0
         while extra < 1500 and any(c.kind == "big_stall" and c.entry is not None and c.entry.open and
                                    not c.deadline_seen for c in self.conns):
+            self.step += 1
             self.svc()
             self.tymist.tick()
             extra += 1
